@@ -137,6 +137,11 @@ def simp(t):
     if h == "bin" and is_const(t[2]) and is_const(t[3]) and all(isinstance(x[2], (int, float)) and not isinstance(x[2], bool) for x in (t[2], t[3])) and t[1] in ("+", "-", "*"):
         a, b = t[2][2], t[3][2]
         return const(a + b if t[1] == "+" else a - b if t[1] == "-" else a * b)
+    if h == "sub" and head(t[1]) == "dict" and is_const(t[2]) and all(is_const(k) for k, _ in t[1][1]):
+        for k, v in t[1][1]:
+            if k == t[2]:
+                return v
+        return t
     if h == "sub" and head(t[1]) == "tuple" and is_const(t[2]) and isinstance(t[2][2], int) and -len(t[1][1]) <= t[2][2] < len(t[1][1]):
         return t[1][1][t[2][2]]
     if h == "item" and head(t[1]) == "tuple" and isinstance(t[2], int) and t[2] < len(t[1][1]):
